@@ -48,3 +48,72 @@ PROPS["C09"] = dict(
          "Int pair whose difference does not fit in 32 bits",
     assumptions=["NaN excluded (as the statement says)", "Tuple elements are distinct objects"],
 )
+
+PROPS["C02"] = dict(
+    harness="c02_table.c", unity=["Table.c"], level="exploration",
+    technique="runtime reference-model monitor: association-list model + white-box robin-hood slot invariants "
+              "evaluated after every Table operation of generated adversarial-hash workloads, under ASan+UBSan",
+    level_text="Exploration: generated operation sequences (set/update/rem/get/mem/resize/resize(0)/assign from "
+               "Table and Tree/copy+mutate) over 10 key modes (Int keys colliding at slot 0 or at the last slot of "
+               "every table size up to 1259, dense, random, String, String colliding modulo a chosen prime, probe "
+               "keys with harness-chosen hash) with the full oracle (len, mem/get of every universe key, KeyError, "
+               "iteration set, slot invariants) after every operation.",
+    level_note="Trusts the association-list model and the harness's reading of the Table struct (taken from the "
+               "tree's own Table.c by unity inclusion; derived quantities recomputed). Sequences are sampled.",
+    quick=[("asan", 16, 40)],
+    thorough=[("asan", 16, 250), ("plain", 16, 600, {"env": {"VH_BIG": "1"}})],
+    floors={"quick": {"updates_of_displaced_key": 1, "wrapped_entries_observed": 1,
+                      "removals_shifting_back_2_or_more": 1, "rehash_grow": 5, "rehash_shrink": 5,
+                      "set_after_resize0": 1, "distinct_slot_counts_seen": 5, "assign_from_tree": 1,
+                      "copies": 1}},
+    rule="case = one Table driven through 30-160 (thorough: up to 9000) random operations in one of 10 key modes, "
+         "oracle after every operation; distinct = hash of the operation list; non-trivial = >=20 operations and at "
+         "least one of: update of a displaced key, removal shifting >=2 entries back, set after resize(0)",
+    assumptions=["keys of one table are of one type", "no aliasing calls (assign(t,t))"],
+)
+
+_C03_CLASSES = ["rem_class:double-black:%s:%s" % (s, c) for s in "LR" for c in (
+    "red-sibling", "black-nephews:black-parent", "black-nephews:red-parent", "far-nephew-red", "near-nephew-red")]
+PROPS["C03"] = dict(
+    harness="c03_tree.c", unity=["Tree.c"], level="exploration",
+    technique="runtime reference-model monitor: ordered-map model + own red-black validator over the node layout "
+              "after every Tree operation of generated insertion/removal patterns, under ASan+UBSan",
+    level_text="Exploration: generated sequences in 5 patterns (random; ascending + remove-root-until-empty + "
+               "descending refill; descending + remove every two-children node; alternating + drain + refill; "
+               "grow-heavy/remove-heavy) over Int, wide Int, String and probe keys; after every operation len, "
+               "mem/get of every key, KeyError, forward iteration strictly monotone, backward its exact reverse, and "
+               "a white-box check of search order, parent links, root colour, red-red, black height, node count and "
+               "height <= 2*log2(n+1). Every branch of the removal repair is required to be reached (floor).",
+    level_note="Trusts the presence-array model and the validator's reading of the node layout (struct Tree comes "
+               "from the tree's own Tree.c; the left/right orientation is observed, not assumed).",
+    quick=[("asan", 16, 40)],
+    thorough=[("asan", 16, 400), ("plain", 16, 1200, {"env": {"VH_BIG": "1"}})],
+    floors={"quick": dict([(c, 1) for c in _C03_CLASSES] + [
+        ("rem_node_with_two_children", 5), ("insert_recolour_propagates", 1), ("insert_rotation", 5),
+        ("drained_to_empty", 3), ("rem_root", 10), ("resize_0", 1), ("assign_from_table", 1), ("copies", 1),
+        ("validations_of_trees_of_height_6_or_more", 10)])},
+    rule="case = one Tree driven through a pattern of 40-900 (thorough: up to 17000) operations, oracle after every "
+         "operation; distinct = hash of the operation list; non-trivial = at least 20 operations",
+    assumptions=["Int keys stay within +-2^41 so differences cannot overflow (C09 owns the boundaries)"],
+)
+
+PROPS["C04"] = dict(
+    harness="c04_sequences.c", unity=["Array.c"], level="exploration",
+    technique="runtime reference-model monitor: C-array model per container compared (len, get with positive and "
+              "negative indices, mem, iteration) after every operation; sort checked as ordered permutation; ASan+UBSan",
+    level_text="Exploration: generated in-range operation sequences (push/append/pop/push_at/pop_at/set/rem/concat/"
+               "resize/sort/sort_by/assign/copy+mutate) on Array, List and Tuple with Int, Float, String and probe "
+               "elements, lengths 0..600 crossing every x1.5 growth and the shrink rule, full oracle after every "
+               "operation; dedicated sort inputs (sorted, reversed, all-equal 1500, two-valued, random).",
+    level_note="Trusts the C-array model. Conventions the statement leaves open (negative push_at index, resize "
+               "growth per container) are accepted as observed and pinned per container kind, see DESIGN C04.",
+    quick=[("asan", 16, 36)],
+    thorough=[("asan", 16, 500), ("plain", 16, 1500)],
+    floors={"quick": {"array_growth_reallocations": 10, "array_shrink_reallocations": 10, "push_at_front": 5,
+                      "push_at_last_index": 5, "pop_at_front": 5, "pop_at_last_index": 5, "sorts_with_ties": 5,
+                      "rem_with_duplicates": 5, "concat": 5, "assign": 5, "copy": 5, "push_at_negative": 5}},
+    rule="case = one Array/List/Tuple driven through 30-220 (thorough: up to 1800) random in-range operations, oracle "
+         "after every operation; distinct = hash of the operation list; non-trivial = at least 15 operations",
+    assumptions=["no aliasing calls (concat(a,a), assign(a,a))", "Tuple elements are distinct objects (repeated "
+                 "pointers are covered by C11)"],
+)
